@@ -330,6 +330,30 @@ impl<T> WriteStream<T> {
     }
 }
 
+/// A handle for looking at a stream's state without being one of its ends:
+/// holding it does not keep the stream "open".
+#[cfg(feature = "verif")]
+pub struct StreamProbe<T>(std::sync::Weak<circular_buffer::Buffer<T>>);
+
+#[cfg(feature = "verif")]
+impl<T> StreamProbe<T> {
+    /// Dump the state, if the buffer still exists. Only for single threaded
+    /// harnesses: it briefly holds a strong reference.
+    #[must_use]
+    pub fn dump(&self) -> Option<crate::verif::BufferDump> {
+        self.0.upgrade().map(|b| b.verif_dump())
+    }
+}
+
+#[cfg(feature = "verif")]
+impl<T> WriteStream<T> {
+    /// Get a probe for this stream.
+    #[must_use]
+    pub fn verif_probe(&self) -> StreamProbe<T> {
+        StreamProbe(Arc::downgrade(&self.circ))
+    }
+}
+
 #[cfg(feature = "verif")]
 impl<T> NCWriteStream<T> {
     /// Number of queued packets.
